@@ -60,13 +60,13 @@ theorem Stable.presD (id : Nat) : PresD (Stable id) where
   cqPop := fun h hcq => ⟨Inv.presD.cqPop h.1 hcq, h.2.of_same rfl (fun _ h => h)⟩
   infRemove := fun id' h => ⟨Inv.presD.infRemove id' h.1, h.2.of_same rfl (fun _ h => (List.mem_filter.mp h).1)⟩
   drop_x := fun h hx => ⟨Inv.presD.drop_x h.1 hx, h.2⟩
-  infRearm := fun id' key t h => ⟨Inv.presD.infRearm id' key t h.1, by
+  infRearm := fun id' key t due h => ⟨Inv.presD.infRearm id' key t due h.1, by
     obtain ⟨⟨i, c, hg, a⟩, hn⟩ := h.2
     refine ⟨⟨i, c, hg, a⟩, fun e he => ?_⟩
     obtain ⟨e0, he0, rfl⟩ := List.mem_map.mp he
-    rw [(rearmEntry_same id' key t e0).1]; exact hn e0 he0⟩
-  popInsert := fun {v r rest} key rem h hpq hnc => by
-    refine ⟨Inv.presD.popInsert key rem h.1 hpq hnc, ?_⟩
+    rw [(rearmEntry_same id' key t due e0).1]; exact hn e0 he0⟩
+  popInsert := fun {v r rest} key rem due h hpq hnc => by
+    refine ⟨Inv.presD.popInsert key rem due h.1 hpq hnc, ?_⟩
     obtain ⟨⟨i, c0, hg0, hp0, hid0, hrx0⟩, hn⟩ := h.2
     refine ⟨⟨i, c0, hg0, hp0, hid0, hrx0⟩, fun e he => ?_⟩
     simp only [List.mem_append, List.mem_singleton] at he
